@@ -324,6 +324,75 @@ fn run_history(kt: KT, sort: Option<bool>, ops: &[Op]) -> Result<Run, String> {
     Ok(Run { obs, opstamps, problems, merges, f171, f171_class_merge })
 }
 
+/// the key of a small integer in the field's type (order preserving)
+fn key_small(kt: KT, small: i64) -> KV {
+    match kt {
+        KT::U64 => KV::Num((small + 1000) as u64),
+        KT::I64 => KV::Num(small as u64),
+        KT::F64 => KV::Num((small as f64 / 2.0 + 0.25).to_bits()),
+        KT::Date => KV::Num(DateTime::from_timestamp_secs(small * 3600).into_timestamp_nanos() as u64),
+        KT::Str => KV::Bin(format!("k{:03}", small + 500).into_bytes()),
+        KT::Bytes => { let v = (small + 500) as u16; KV::Bin(vec![(v >> 8) as u8, v as u8]) }
+    }
+}
+
+/// Directed class "the stacking decision hinges on live value-less documents in a segment with deletes":
+/// 2-4 segments with pairwise disjoint (or touching) value windows, committed in a random order; one segment
+/// (lowest / middle / highest window) holds j value-less documents (alive, deleted, or mixed) and d deleted
+/// documents with values (d around j: fewer, equal, more; deleted inside the transaction or by a later one);
+/// other segments may have deletes too but no value-less documents; optionally a multi-valued document;
+/// then all segments are merged.  (Desc + alive nulls at the tail of a segment whose num_docs < max_doc is the
+/// shape in which a num_docs/max_doc confusion of the null scan shows.)
+fn gen_stack_candidate(rng: &mut Rng, kt: KT, shape: u64) -> Vec<Op> {
+    let nseg = 2 + (shape % 3) as usize;
+    let touching = rng.chance(1, 3);
+    // window of value rank w: [w*10, w*10+5] (touching: next window starts at this one's end)
+    let window = |w: usize| -> (i64, i64) { if touching { (w as i64 * 5, w as i64 * 5 + 5) } else { (w as i64 * 10, w as i64 * 10 + 5) } };
+    let null_rank = match (shape / 3) % 3 { 0 => 0, 1 => nseg / 2, _ => nseg - 1 };
+    let j = rng.range(1, 3) as usize;                       // value-less documents
+    let null_mode = (shape / 9) % 4;                         // 0,1 alive; 2 all deleted; 3 mixed
+    let d = match rng.below(4) { 0 => j.saturating_sub(1), 1 => j, 2 => j + 2, _ => 0 }; // deleted docs with values
+    let late_delete = rng.chance(1, 2);                      // the delete arrives in the next transaction
+    let multi = rng.chance(1, 5);
+    let mut order: Vec<usize> = (0..nseg).collect();         // commit order of the value ranks
+    rng.shuffle(&mut order);
+    let mut ops = vec![];
+    let mut next_id = 0u64;
+    let mut pending_late: Vec<u64> = vec![];
+    for (c, rank) in order.iter().enumerate() {
+        let (lo, hi) = window(*rank);
+        let mut docs: Vec<(Vec<KV>, u64)> = vec![];
+        // live documents with values (tag 0/1), the window's ends always present (so that min/max are the window)
+        docs.push((vec![key_small(kt, lo)], 0));
+        docs.push((vec![key_small(kt, hi)], 1));
+        for _ in 0..rng.range(0, 4) { docs.push((vec![key_small(kt, lo + rng.below((hi - lo + 1) as u64) as i64)], rng.below(2))); }
+        let mut dels_here: Vec<u64> = vec![];
+        if *rank == null_rank {
+            for n in 0..j {
+                let dead = null_mode == 2 || (null_mode == 3 && n % 2 == 0);
+                docs.push((vec![], if dead { 7 } else { 6 }));
+            }
+            if null_mode >= 2 { dels_here.push(7); }
+            for _ in 0..d { docs.push((vec![key_small(kt, lo + rng.below((hi - lo + 1) as u64) as i64)], 8)); }
+            if d > 0 { dels_here.push(8); }
+            if multi { docs.push((vec![key_small(kt, lo + 1), key_small(kt, lo + 2)], 0)); }
+        } else if rng.chance(1, 3) {
+            for _ in 0..rng.range(1, 3) { docs.push((vec![key_small(kt, lo + rng.below((hi - lo + 1) as u64) as i64)], 9)); }
+            dels_here.push(9);
+        }
+        rng.shuffle(&mut docs);
+        // deletes of the previous transaction that were postponed
+        for t in pending_late.drain(..) { ops.push(Op::Del(t)); }
+        for (keys, tag) in docs { ops.push(Op::Add(DocSpec { id: next_id, keys, tag })); next_id += 1; }
+        if late_delete && c + 1 < nseg { pending_late = dels_here; } else { for t in dels_here { ops.push(Op::Del(t)); } }
+        ops.push(Op::Commit);
+    }
+    let mut all: Vec<usize> = (0..nseg).collect();
+    rng.shuffle(&mut all);
+    ops.push(Op::Merge(all));
+    ops
+}
+
 /// both ends of every key type, with neighbours (every pair of adjacent extremes must stay distinguishable by the sort key)
 fn boundary_pool(kt: KT) -> Vec<KV> {
     match kt {
@@ -490,13 +559,10 @@ fn run_and_emit(out: &mut CaseOut, kt: KT, sort: Option<bool>, ops: Vec<Op>, mul
         out.count("f171_hits", 1);
         return;
     }
-    // tie: the model replays the history.  (Histories with a merge whose sources are in class F171 are not tied:
-    // the model transliterates the defective segment_has_live_nulls; the spec cases remain.)
-    if !run.f171_class_merge {
-        out.coq_case("tie", format!("tie_replay {} {} {} {}", kt.coq(), so, h, obs), desc_json(json!({"segments": run.obs.len()})), nontrivial);
-    } else {
-        out.count("untied_f171_class_histories", 1);
-    }
+    // tie: the model replays the history (its segment_has_live_nulls follows the source shape through the pin
+    // SORT_LIVE_NULLS_SCANS_MULTIVALUED, so histories with Multivalued sources are tied as well)
+    if run.f171_class_merge { out.count("f171_class_histories_tied", 1); }
+    out.coq_case("tie", format!("tie_replay {} {} {} {}", kt.coq(), so, h, obs), desc_json(json!({"segments": run.obs.len()})), nontrivial);
     if let Some(d) = sort {
         for sg in &run.obs {
             let live: Vec<String> = sg.iter().filter(|x| x.alive).map(|x| rawkey(&x.keys)).collect();
@@ -543,6 +609,19 @@ fn main() {
         }
     }
     FINE_DATES.store(false, std::sync::atomic::Ordering::Relaxed);
+
+    // ---------------- (iv) directed: stacking decision vs live value-less documents in segments with deletes ----------------
+    for kt in kts {
+        for sort in [Some(true), Some(false)] {
+            let n = if !kt.numeric() { if thorough { 8 } else { 3 } } else if thorough { 72 } else { 18 };
+            for i in 0..n {
+                let shape = i as u64 * 2 + rng.below(2);
+                let ops = gen_stack_candidate(&mut rng, kt, shape);
+                run_and_emit(&mut out, kt, sort, ops, false, "stack-candidate");
+                out.count("stack_candidate_histories", 1);
+            }
+        }
+    }
 
     // ---------------- corpus: the F171 witness (findings/C17-multivalued-null-stack.md) ----------------
     for desc in [false, true] {
